@@ -234,15 +234,17 @@ fn plans_c16(tier: Tier) -> Vec<Plan> {
             Act::Connect { c: 3, clean: true, will: 0 },
             Act::Sub { c: 2, f: 0, qos: 1 },
         ];
-        v.push(Plan { cfg: c.clone(), depth_by_devs: if q { vec![4, 4] } else { vec![6, 5] } });
+        let d = match (q, variant) {
+            (true, 2) => vec![3, 3],
+            (true, _) => vec![4, 4],
+            _ => vec![6, 5],
+        };
+        v.push(Plan { cfg: c.clone(), depth_by_devs: d });
         if variant == 0 {
             // MQTT 5 will owner (will properties) towards an MQTT 5 and a 3.1.1 subscriber
             let mut c5 = c.clone();
             c5.v5 = vec![true, false, true, false, false];
             v.push(Plan { cfg: c5, depth_by_devs: if q { vec![3] } else { vec![5, 4] } });
-        }
-        if q && variant == 1 {
-            break;
         }
     }
     v
